@@ -298,9 +298,6 @@ class DRFNet(BayesianNetwork):
         """
         # Checks inputs
         super().sample(n)
-        # Set random state (if requested): the forests draw their
-        # samples from numpy's global generator
-        np.random.seed(random_state) if random_state is not None else None
         # Set sample sizes
         if n is None:
             n = self.Ns
@@ -310,6 +307,9 @@ class DRFNet(BayesianNetwork):
         # shared by all bootstrap draws, so that source nodes are
         # resampled independently of one another
         rng = np.random.default_rng(random_state)
+        # Set random state (if requested): the forests draw their
+        # samples from numpy's global generator
+        np.random.seed(rng.integers(2**32)) if random_state is not None else None
         sampled_data = []
         for k in range(self.e):
             sample = np.zeros((n[k], self.p), dtype=float)
